@@ -35,7 +35,7 @@ CFG_SMALL = replace(CFG_ON, max_rows=14, nrow_range=(1, 9))
 def strategy(tier):
     return st.one_of(
         gen.table_recipe(CFG_SMALL), gen.table_recipe(CFG_SMALL), gen.table_recipe(CFG_ON),
-        gen.table_recipe(CFG_OFF), gen.multi_recipe(CFG_SMALL),
+        gen.table_recipe(CFG_OFF), gen.multi_recipe(CFG_SMALL), gen.multi_recipe(replace(CFG_SMALL, multi_grouping=True)),
     )
 
 
